@@ -92,6 +92,8 @@ class _Desugar(ast.NodeTransformer):
         if isinstance(e, ast.Call):
             if isinstance(e.func, ast.Name) and e.func.id in self.records:
                 return e.func.id
+            if isinstance(e.func, ast.Attribute) and e.func.attr == "_make" and isinstance(e.func.value, ast.Name) and e.func.value.id in self.records:
+                return e.func.value.id
             if isinstance(e.func, ast.Attribute) and e.func.attr in ("get", "pop", "setdefault", "popitem"):
                 return self.container_of(e.func.value)
             if isinstance(e.func, ast.Name) and e.func.id == "cast" and len(e.args) == 2:
@@ -172,6 +174,10 @@ class _Desugar(ast.NodeTransformer):
 
     def visit_Call(self, node: ast.Call):
         self.generic_visit(node)
+        if isinstance(node.func, ast.Attribute) and node.func.attr == "_make" and isinstance(node.func.value, ast.Name) and node.func.value.id in self.records \
+                and len(node.args) == 1 and not node.keywords:
+            # Rec._make(iterable) is tuple(iterable) with field names
+            return ast.copy_location(ast.Call(func=ast.Name(id="tuple", ctx=ast.Load()), args=node.args, keywords=[]), node)
         if isinstance(node.func, ast.Name) and node.func.id in self.records and not any(isinstance(a, ast.Starred) for a in node.args) \
                 and not any(k.arg is None for k in node.keywords):
             fields, defaults = self.records[node.func.id]
